@@ -39,6 +39,18 @@ func (e *labEP) goDown() {
 	}
 }
 
+// goDownUDP: the UDP endpoint closes its socket (datagrams to it are answered
+// with ICMP port unreachable from now on).
+func (e *labEP) goDownUDP() {
+	h := e.hub
+	h.mu.Lock()
+	delete(h.eps, fmt.Sprintf("udp|%s|%d", e.ip, e.port))
+	h.mu.Unlock()
+	if e.udp != nil {
+		e.udp.Close()
+	}
+}
+
 // comeUp: a TCP endpoint listens again on the address of one that went down.
 func (h *labHub) comeUp(e *labEP) (*labEP, error) {
 	var last error
